@@ -4,9 +4,8 @@ import TempestVerif.Model.Kernel
   line-protocol handlers of property C03 (Float only: the kernels use sqrt/log/exp)
 
     kstep.F kind=<tpcn|rwm> d=<1..> u=<floats> mu=<floats> chol=<rows ; separated> invcov=<rows> nu=<f> sigma=<f>
-            beta=<f> l=<f> lp=<f> g=<f> r=<f> zs=<normal vectors ; separated> per=<nats> refl=<nats>
-        -> `<shape> <scale> <s> <draws> <proposal> <dot> <dotp> <factor> <alpha> <accept 0|1> <new u>`
-           or `exhausted` when no vector of the tape yields a point passing check_bounds
+            beta=<f> l=<f> lp=<f> g=<f> r=<f> z=<normal vector> per=<nats> refl=<nats>
+        -> `<shape> <scale> <s> <draws> <candidate> <in_bounds 0|1> <proposal passed on> <dot> <dotp> <factor> <alpha> <accept 0|1> <new u>`
     adapt.F kind=<tpcn|rwm> sigma=<f> iter=<f> acc=<f> sigma0=<f>   -> `<new sigma>`
   Matrices / tapes: rows separated by `;`, entries by `,`.  Shapes are validated (`bad-op` otherwise).
 -/
@@ -35,7 +34,7 @@ def kstep (args : List (String × String)) : Option String := do
   let mu ← vArg args "mu"
   let chol ← mArg args "chol"
   let invcov ← mArg args "invcov"
-  let zs ← mArg args "zs"
+  let z ← vArg args "z"
   let per ← (getArg args "per").bind parseNatList?
   let refl ← (getArg args "refl").bind parseNatList?
   let nu ← fArg args "nu"
@@ -45,15 +44,13 @@ def kstep (args : List (String × String)) : Option String := do
   let lp ← fArg args "lp"
   let g ← fArg args "g"
   let r ← fArg args "r"
-  if d == 0 || u.length != d || mu.length != d || !square d chol || !square d invcov || !zs.all (·.length == d)
+  if d == 0 || u.length != d || mu.length != d || !square d chol || !square d invcov || z.length != d
       || !per.all (· < d) || !refl.all (· < d) then none
   else
-    match step (α := Float) { kind, u, mu, chol, invcov, nu, sigma, beta, l, lp, g, r, zs, per, refl } with
-    | none => some "exhausted"
-    | some o =>
-      some (s!"{showFloat o.shape} {showFloat o.scale} {showFloat o.s} {o.draws} {showList showFloat o.prop} " ++
-            s!"{showFloat o.dot} {showFloat o.dotp} {showFloat o.factor} {showFloat o.alpha} {showBool o.accept} " ++
-            s!"{showList showFloat o.newU}")
+    let o := step (α := Float) { kind, u, mu, chol, invcov, nu, sigma, beta, l, lp, g, r, z, per, refl }
+    some (s!"{showFloat o.shape} {showFloat o.scale} {showFloat o.s} {o.draws} {showList showFloat o.cand} {showBool o.inb} " ++
+          s!"{showList showFloat o.prop} {showFloat o.dot} {showFloat o.dotp} {showFloat o.factor} {showFloat o.alpha} " ++
+          s!"{showBool o.accept} {showList showFloat o.newU}")
 
 def adapt (args : List (String × String)) : Option String := do
   let kind ← kindArg args
